@@ -313,7 +313,13 @@ def build_edited(spec: NetSpec, P: dict, mode: str = "links", engine=None) -> Bu
                        (f"L{i}", "beta"): l.beta * 2.0 + 0.3 * i, (f"L{i}", "alpha"): l.alpha + 0.05})
         for o in spec.origins:
             ov[(f"O{o.node}", "C")] = o.C + 321.0
-        b = build(spec, override=ov)
+        # ... and the speed-limit signs stand on OTHER segments (same number of signs) until they are moved
+        from dataclasses import replace as _rp
+        moved = {i: tuple(sorted({(x + 1) % l.N for x in l.vsl})) for i, l in enumerate(spec.links)
+                 if l.vsl is not None and 0 < len(l.vsl) < l.N}
+        sp0 = _rp(spec, links=tuple(_rp(l, vsl=moved[i]) if i in moved else l for i, l in enumerate(spec.links)))
+        b = build(sp0, override=ov)
+        b = Built(b.net, spec, b.obj)
         touch_lookups(b.net)
         if engine is None:
             from sym_metanet.engines.numpy import Engine as _NE
@@ -325,6 +331,8 @@ def build_edited(spec: NetSpec, P: dict, mode: str = "links", engine=None) -> Bu
             el.lam, el.L, el.rho_max, el.rho_crit, el.v_free, el.a, el.turnrate = l.lam, l.L, l.rho_max, l.rho_crit, l.v_free, l.a, l.beta
             if l.vsl is not None:
                 el.alpha = l.alpha
+                if i in moved:
+                    el.vsl = sorted(l.vsl)
         for o in spec.origins:
             if o.kind not in ("ideal", "main"):
                 b.obj[f"O{o.node}"].C = o.C
